@@ -1,4 +1,4 @@
-package cross_chain_manager
+package ripple
 
 // C17 (b) support, copied into each contract package (bin-less: sed "s/^package PKG/package <name>/").
 // Every storage accessor of a contract is run with symbolic parameters on the real CacheDB/OverlayDB
@@ -71,6 +71,21 @@ func zz17Check(contract common.Address, a, b zz17Rec) {
 // zz17VarBytes: a variable-length parameter; every length in lens is explored.
 func zz17VarBytes(name string, lens []int) []byte {
 	return zzsym.Bytes(name, lens[zzsym.Choose(name+".len", len(lens))])
+}
+
+// zz17Lens: the lengths explored for variable-length key fields: 0..LMAX (spec parameter) plus the given extras.
+func zz17Lens(extra ...int) []int {
+	var out []int
+	max := zzsym.Param("LMAX")
+	for i := 0; i <= max; i++ {
+		out = append(out, i)
+	}
+	for _, e := range extra {
+		if e > max {
+			out = append(out, e)
+		}
+	}
+	return out
 }
 
 func zz17Pair(kinds int) (int, int) {
